@@ -953,6 +953,17 @@ func (g *schemaGenerator) ensureUnmarshaler(t codegen.Type) {
 }
 
 func (g *schemaGenerator) generateAllOfType(allOf []*schemas.Type, scope nameScope) (codegen.Type, error) {
+	// A branch that refers to the schema containing this allOf brings the same allOf back in the
+	// merged type: it would be merged and generated again without end.
+	if len(allOf) > 0 && allOf[0] != nil {
+		if _, ok := g.allOfScope[allOf[0]]; ok {
+			return nil, errAllOfCycle
+		}
+
+		g.allOfScope[allOf[0]] = struct{}{}
+		defer delete(g.allOfScope, allOf[0])
+	}
+
 	rAllOf, err := g.resolveRefs(allOf)
 	if err != nil {
 		return nil, err
